@@ -21,8 +21,11 @@ if r.returncode != 0:
 man = json.load(open(os.path.join(VERIF, "MANIFEST.json")))
 results = {}
 try:
+    only = os.environ.get("CHECKS", "").split()     # optional: evaluate against these checks only (recorded in meta.json)
     for c in man["checks"]:
         pid = c["property_id"]
+        if only and pid not in only:
+            continue
         p = subprocess.run(["./check", pid, "--tier", "quick"], cwd=VERIF, stdout=subprocess.PIPE, stderr=subprocess.STDOUT)
         out = p.stdout.decode()
         last = [l for l in out.split("\n") if l.startswith(pid + " quick")]
@@ -34,7 +37,7 @@ finally:
 caught = [p for p, r in results.items() if r["exit"] != 0]
 meta = {"name": name, "property": prop, "patch": "patch.diff", "demonstration": "seeded_demo.rs",
         "needs": "see SEEDED.md", "confirmed": "tools/seed_confirm.sh: demo fails with the change, passes without, full suite passes with it",
-        "checks_reporting_it": caught,
+        "checks_run": sorted(results), "checks_reporting_it": caught,
         "with_failing_input": [p for p in caught if results[p]["violation"] and "no-failing-input-found" not in results[p]["violation"]],
         "results": results}
 json.dump(meta, open(os.path.join(dst, "meta.json"), "w"), indent=1)
